@@ -209,7 +209,7 @@ static Result execute(const Toks &t) {
 }
 
 static void generate(Rng &rng, const Opts &o, std::vector<std::string> &lines) {
-    long rounds = o.cases > 0 ? o.cases : (o.thorough() ? 40 : 5);
+    long rounds = o.cases > 0 ? o.cases : (o.thorough() ? 120 : 15);
     for (long k = 0; k < rounds; ++k) {
         for (long kind = 0; kind < 2; ++kind) for (long ord = 0; ord < 3; ++ord) {
             long n = rng.range(2, o.thorough() ? 12 : 8);
